@@ -193,6 +193,13 @@ func (g *Geometry) UnmarshalJSON(data []byte) error {
 		return ErrInvalidGeometry
 	}
 
+	// g may hold an earlier value: a geometry is either coordinates or members
+	if jg.Type == "GeometryCollection" {
+		g.Coordinates = nil
+	} else {
+		g.Geometries = nil
+	}
+
 	g.Type = g.Geometry().GeoJSONType()
 
 	return nil
@@ -254,6 +261,13 @@ func (g *Geometry) UnmarshalBSON(data []byte) error {
 		g.Geometries = bg.Geometries
 	default:
 		return ErrInvalidGeometry
+	}
+
+	// g may hold an earlier value: a geometry is either coordinates or members
+	if bg.Type == "GeometryCollection" {
+		g.Coordinates = nil
+	} else {
+		g.Geometries = nil
 	}
 
 	g.Type = g.Geometry().GeoJSONType()
